@@ -231,9 +231,11 @@ class _Names:
                     tgt, val = n.targets[0], n.value
                 elif isinstance(n, ast.AnnAssign):
                     tgt, val = n.target, n.value
-                if isinstance(tgt, ast.Attribute) and isinstance(val, ast.Call) and getattr(val.func, "id", getattr(val.func, "attr", "")) == "defaultdict":
+                if isinstance(tgt, ast.Attribute) and isinstance(val, ast.Call) and getattr(val.func, "id", getattr(val.func, "attr", "")) in ("defaultdict", "dict"):
                     return tgt.attr
-            raise AnalysisError("anchor vanished: AstNode child store (defaultdict(list)) not found")
+                if isinstance(tgt, ast.Attribute) and isinstance(val, ast.Dict) and not val.keys:
+                    return tgt.attr
+            raise AnalysisError("anchor vanished: AstNode child store (a dictionary of lists the node creates for itself) not found")
         return self._get("SUB_ITEMS", find)
 
     def _line_attrs(self):
@@ -296,10 +298,27 @@ class _Names:
         def find():
             cls = facts().cls("gherkin.stream.id_generator.IdGenerator")
             init = cls.find_method("__init__")
-            for n in _walk(init.node):
-                if isinstance(n, ast.Assign) and isinstance(n.targets[0], ast.Attribute) and isinstance(n.value, ast.Constant) and n.value.value == 0:
-                    return n.targets[0].attr
-            raise AnalysisError("anchor vanished: IdGenerator.__init__ does not initialise a counter to 0")
+            # the attribute the constructor binds and another method advances (+= / = ... + ...); the value it starts from is
+            # the rules' business (C11.gen)
+            bound = []
+            for n in _walk(init.node) if init else []:
+                if isinstance(n, ast.Assign) and isinstance(n.targets[0], ast.Attribute) and n.targets[0].attr not in bound:
+                    bound.append(n.targets[0].attr)
+            advanced = []
+            for fi in cls.all_methods():
+                if fi.name == "__init__":
+                    continue
+                for n in _walk(fi.node):
+                    if isinstance(n, ast.AugAssign) and isinstance(n.target, ast.Attribute):
+                        advanced.append(n.target.attr)
+                    elif isinstance(n, ast.Assign) and isinstance(n.targets[0], ast.Attribute) and isinstance(n.value, ast.BinOp):
+                        advanced.append(n.targets[0].attr)
+            both = [a for a in bound if a in advanced]
+            if len(both) == 1:
+                return both[0]
+            if len(bound) == 1:
+                return bound[0]
+            raise AnalysisError("anchor vanished: IdGenerator.__init__ does not initialise a counter")
         return self._get("ID_COUNTER", find)
 
     @property
